@@ -239,7 +239,7 @@ class Run:
         self.distinct = set()
         self.trusted = []
         self.assumptions = []
-        self.known = [k for k in load_known() if k.get('property') == prop and k.get('status') == 'open']
+        self.known = [k for k in load_known() if (k.get('property') == prop or prop in k.get('also', ())) and k.get('status') == 'open']
         os.makedirs(WORK, exist_ok=True)
 
     # -- obligations (proofs, translator targets, correspondence streams)
